@@ -1,30 +1,51 @@
+From Coq Require Export Uint63.
 From UV Require Export Base.Common Model.Prng Model.Randomized.
+From UV Require Import Model.RandomizedCoins.
 From Coq Require Import QArith.
 Open Scope N_scope.
 
-(* Correspondence cases for C09.
-   CGen: one call of generateRandomizedSpec on the real code: variant, the 17 weights as
-     float64 bit patterns (struct order, u_common.go:671), serverName, NextProtos, the
-     prefix of SHAKE256(seed) as bytes, the first 8 bytes of the salted ("ALPS") stream,
-     and the spec (or error) the code returned. (Bytes, not 64-bit literals: Coq parses
-     small numerals far faster than 20-digit ones.)
-   CTable: the code's cipherSuites rows and defaultCipherSuitesTLS13 (drift of the snapshot
-     Randomized.utls_table).
-   CConsts: the Go constants, in the order of [model_consts].
-   CDefaults: DefaultWeights (u_common.go:693) as 17 float64 bit patterns; CGen cases with
-     id.Weights == nil carry wbytes = [] and use the snapshot [default_wbits]; 8 bytes = all
-     17 weights equal.
+(* Correspondence cases for C09. Every number in a case is a primitive-integer literal and every
+   byte string is packed 7 bytes per literal (Coq's front end, not vm_compute, dominates the cost of
+   a case: ~0.2 ms per literal, far more for multi-digit N numerals).
+   CGen: one call of generateRandomizedSpec on the real code: variant, the weights (0 bytes =
+     id.Weights nil -> DefaultWeights snapshot; 8 bytes = all 17 equal; else 17 float64 bit patterns
+     in struct order, u_common.go:671), serverName, NextProtos, the prefix of SHAKE256(seed), the first
+     8 bytes of the salted ("ALPS") stream, and the result the code returned, serialised by the
+     runner exactly as [enc_res] serialises the model's result (an injective prefix code).
+   CTable / CConsts / CDefaults: drift of the snapshots (cipherSuites rows and
+     defaultCipherSuitesTLS13, the Go constants in the order of [model_consts], DefaultWeights).
+   CCoins: the sequence of id.Weights.X references in the source text of generateRandomizedSpec
+     (field indices) followed by 100 + the number of FlipWeightedCoin calls there; must be [map c_field coins]
+     followed by 100 + (rows - 1) (the removeRandomCiphers row flips inside the helper) - the coin table of
+     Model/RandomizedCoins.v.
    CRemove / CRC4 / CShuffled: the helpers called directly. *)
 Inductive case :=
-| CGen (v : variant) (wbytes : bytes) (server : bytes) (protos : list bytes) (s salted : bytes) (r : res spec)
-| CTable (rows : list (N * bool)) (tls13 : list N)
-| CConsts (vals : list N)
-| CDefaults (wbytes : bytes)
-| CRemove (st : bytes) (s : list N) (wbytes : bytes) (out : list N)
-| CRC4 (s out : list N)
-| CShuffled (st : bytes) (out : list N).
+| CGen (v : variant) (wlen : int) (ww : list int) (server : int * list int) (protos : list (int * list int))
+       (slen : int) (sw : list int) (salted : list int) (obs : list int)
+| CTable (rows : list (int * bool)) (tls13 : list int)
+| CConsts (vals : list int)
+| CDefaults (ww : list int)
+| CCoins (fields : list int)
+| CRemove (slen : int) (sw : list int) (s : list int) (ww : list int) (out : list int)
+| CRC4 (s out : list int)
+| CShuffled (slen : int) (sw : list int) (out : list int).
 
 Definition fuel := 16%nat.
+
+(* [pk n ws]: the n-byte string whose successive 7-byte groups (the last one shorter) are the big-endian words ws *)
+Fixpoint hx_go (k : nat) (x : N) (acc : bytes) : bytes :=
+  match k with
+  | O => acc
+  | S k' => hx_go k' (N.shiftr x 8) (N.land x 255 :: acc)
+  end.
+Definition w2n (w : int) : N := Z.to_N (Uint63.to_Z w).
+Fixpoint pk (n : N) (ws : list int) : bytes :=
+  match ws with
+  | [] => []
+  | w :: ws' => let k := N.min 7 n in hx_go (N.to_nat k) (w2n w) [] ++ pk (n - k) ws'
+  end.
+Definition pkp (p : int * list int) : bytes := pk (w2n (fst p)) (snd p).
+Definition ns (l : list int) : list N := map w2n l.
 
 (* 8 big-endian bytes per float64 bit pattern *)
 Fixpoint words_of (n : nat) (b : bytes) : list N :=
@@ -48,20 +69,54 @@ Definition weights_of (l : bytes) : option weights :=
   | _ => None
   end.
 
-Definition list_N_eq_dec : forall a b : list N, {a = b} + {a <> b} := list_eq_dec N.eq_dec.
-Definition ext_eq_dec (a b : ext) : {a = b} + {a <> b}.
-Proof.
-  decide equality; try apply list_N_eq_dec; try apply N.eq_dec; apply (list_eq_dec list_N_eq_dec).
-Defined.
-Definition spec_eqb (a b : spec) : bool :=
-  (sp_min a =? sp_min b) && (sp_max a =? sp_max b) && list_eqb N.eqb (sp_ciphers a) (sp_ciphers b)
-  && (if list_eq_dec ext_eq_dec (sp_exts a) (sp_exts b) then true else false).
-Definition res_eqb (a b : res spec) : bool :=
-  match a, b with
-  | Ok x, Ok y => spec_eqb x y
-  | Err c, Err d => c =? d
-  | Panic c, Panic d => c =? d
-  | _, _ => false
+(* serialisation of a result: a prefix code (every list is preceded by its length) *)
+Definition enc_list (l : list N) : list N := N.of_nat (length l) :: l.
+Definition enc_strs (l : list bytes) : list N := N.of_nat (length l) :: flat_map enc_list l.
+Definition enc_ext (e : ext) : list N :=
+  match e with
+  | ESNI name => 0 :: enc_list name
+  | ESessionTicket => [1]
+  | ESigAlgs a => 2 :: enc_list a
+  | EPoints a => 3 :: enc_list a
+  | ECurves a => 4 :: enc_list a
+  | EALPN q => 5 :: enc_strs q
+  | EPadding => [6]
+  | EStatus => [7]
+  | ESCT => [8]
+  | EReneg m => [9; m]
+  | EEMS => [10]
+  | EKeyShare a => 11 :: enc_list a
+  | EPSKModes a => 12 :: enc_list a
+  | ESupportedVersions a => 13 :: enc_list a
+  | EALPS q => 14 :: enc_strs q
+  end.
+Definition enc_spec (p : spec) : list N :=
+  sp_min p :: sp_max p :: enc_list (sp_ciphers p) ++ N.of_nat (length (sp_exts p)) :: flat_map enc_ext (sp_exts p).
+Definition enc_res (r : res spec) : list N :=
+  match r with Ok p => 1 :: enc_spec p | Err c => [0; c] | Panic c => [2; c] end.
+
+(* Executable binary64 rounding used by [check]: round-to-nearest-even to a 53-bit significand, minimum
+   exponent -1074, unbounded above (overflow is Randomized.ovf's business). Same function as Prng.rne (which
+   searches the exponent with Z.pow and divides twice) but with shifts and one division: ~2.5x faster under
+   vm_compute. The theorems hold for every rounding function with the IEEE laws; that THIS function is Go's
+   float64 rounding on the operands that occur is what the CGen/CRemove cases check on every run. *)
+Definition q_scaled (m e : Z) : Q :=
+  if (0 <=? e)%Z then inject_Z (Z.shiftl m e) else Qmake m (Z.to_pos (Z.shiftl 1 (- e))).
+Definition rnf_pos (p : Z) (q : positive) : Q :=
+  let e0 := (Z.log2 p - Z.log2 (Zpos q) - 53)%Z in        (* p/q / 2^e0 is in [2^52, 2^54) *)
+  let sc e := if (0 <=? e)%Z then (p, Z.shiftl (Zpos q) e) else (Z.shiftl p (- e), Zpos q) in
+  let '(n0, d0) := sc e0 in
+  let e := if (n0 <? Z.shiftl d0 53)%Z then e0 else (e0 + 1)%Z in
+  let e := Z.max e (-1074) in
+  let '(n, d) := sc e in
+  let '(fl, r) := Z.div_eucl n d in
+  let m := match (2 * r ?= d)%Z with Lt => fl | Gt => (fl + 1)%Z | Eq => if Z.even fl then fl else (fl + 1)%Z end in
+  q_scaled m e.
+Definition rnf (x : Q) : Q :=
+  match Qnum x with
+  | Z0 => 0%Q
+  | Zpos _ => rnf_pos (Qnum x) (Qden x)
+  | Zneg _ => Qopp (rnf_pos (- Qnum x) (Qden x))
   end.
 
 Definition model_consts : list N :=
@@ -74,29 +129,33 @@ Definition model_consts : list N :=
 
 Definition run_ok {A} (m : M A) (s : stream) : option A :=
   match m s with Ok (a, _) => Some a | _ => None end.
+Definition eqn := list_eqb N.eqb.
 
 Definition check (c : case) : bool :=
   match c with
-  | CGen v wb server protos s salted r =>
-      match weights_of wb with
-      | Some w => res_eqb (generate rne fuel utls_table v w server protos s salted) r
+  | CGen v wlen ww server protos slen sw salted obs =>
+      match weights_of (pk (w2n wlen) ww) with
+      | Some w => eqn (enc_res (generate rnf fuel utls_table v w (pkp server) (map pkp protos)
+                                         (pk (w2n slen) sw) (pk 8 salted))) (ns obs)
       | None => false
       end
   | CTable rows tls13 =>
-      list_eqb (fun a b : N * bool => (fst a =? fst b) && Bool.eqb (snd a) (snd b)) rows
+      list_eqb (fun a b : N * bool => (fst a =? fst b) && Bool.eqb (snd a) (snd b))
+               (map (fun r => (w2n (fst r), snd r)) rows)
                (map (fun r => (sr_id r, sr_tls12 r)) (t_suites utls_table))
-      && list_eqb N.eqb tls13 (t_tls13 utls_table)
-  | CConsts vals => list_eqb N.eqb vals model_consts
-  | CDefaults wb => list_eqb N.eqb (words_of 17 wb) default_wbits
-  | CRemove st s wb out =>
-      match run_ok (removeRandomCiphers rne s (fw_of_bits (hd 0 (words_of 1 wb)))) st with
-      | Some l => list_eqb N.eqb l out
+      && eqn (ns tls13) (t_tls13 utls_table)
+  | CConsts vals => eqn (ns vals) model_consts
+  | CDefaults ww => eqn (words_of 17 (pk 136 ww)) default_wbits
+  | CCoins fields => eqn (ns fields) (map c_field coins ++ [100 + N.of_nat (length coins) - 1])
+  | CRemove slen sw s ww out =>
+      match run_ok (removeRandomCiphers rnf (ns s) (fw_of_bits (hd 0 (words_of 1 (pk 8 ww))))) (pk (w2n slen) sw) with
+      | Some l => eqn l (ns out)
       | None => false
       end
-  | CRC4 s out => list_eqb N.eqb (removeRC4Ciphers s) out
-  | CShuffled st out =>
-      match run_ok (shuffledCiphers fuel utls_table) st with
-      | Some l => list_eqb N.eqb l out
+  | CRC4 s out => eqn (removeRC4Ciphers (ns s)) (ns out)
+  | CShuffled slen sw out =>
+      match run_ok (shuffledCiphers fuel utls_table) (pk (w2n slen) sw) with
+      | Some l => eqn l (ns out)
       | None => false
       end
   end.
